@@ -144,7 +144,7 @@ def ty_defs(t, out, seen):
                 body.append(agg_body(m.ty, out, seen) + ';')
             else:
                 ty_defs(m.ty, out, seen)
-                body.append(decl(m.ty, m.name or '') + (f' : {m.bw}' if m.bw is not None else '') + ';')
+                body.append(decl(m.ty, m.name or '', t.flex and m is t.members[-1]) + (f' : {m.bw}' if m.bw is not None else '') + ';')
         out.append(f"{'union' if t.union else 'struct'} {t.tag} {{ {' '.join(body)} }};")
 
 def agg_body(t, out, seen):
@@ -158,10 +158,11 @@ def agg_body(t, out, seen):
             body.append(decl(m.ty, m.name or '') + (f' : {m.bw}' if m.bw is not None else '') + ';')
     return f"{'union' if t.union else 'struct'} {{ {' '.join(body)} }}"
 
-def decl(t, name):
+def decl(t, name, flex=False):
     dims = ''
     while isinstance(t, Arr):
-        dims += '[]' if t.n is None else f'[{t.n}]'
+        dims += '[]' if (t.n is None or flex) else f'[{t.n}]'
+        flex = False
         t = t.elem
     if isinstance(t, Agg):
         base = f"{'union' if t.union else 'struct'} {t.tag}"
@@ -679,7 +680,7 @@ static void dump(int id, int kind, void *p, long n) {
     if (q >= (char *)&g && q < (char *)&g + sizeof(g)) printf(" %ld=g%+ld", i, (long)(q - (char *)&g));
     else if (q >= (char *)arr && q < (char *)arr + sizeof(arr)) printf(" %ld=arr%+ld", i, (long)(q - (char *)arr));
     else if (q >= carr && q < carr + sizeof(carr)) printf(" %ld=carr%+ld", i, (long)(q - carr));
-    else if (q >= &__executable_start && q + 8 < &_end) {
+    else if (q >= &__executable_start && q < &_end - 8) {
       printf(" %ld=S:", i);
       for (int k = 0; k < 8; k++) printf("%02x", (unsigned char)q[k]);
     }
@@ -1068,7 +1069,7 @@ class Runner:
         defs = []
         ty_defs(c['ty'], defs, set())
         open(src, 'w').write(PRELUDE_OBJS + '\n'.join(defs) + f"\nstatic {decl(c['ty'], 'x')} = {tok_c(c['toks'])};\n")
-        return sh(['gcc', '-std=c11', '-pedantic-errors', '-fsyntax-only', '-w', src], timeout=60)
+        return sh(['gcc', '-std=c11', '-pedantic-errors', '-fsyntax-only', src], timeout=60)
 
 # ============================================================================================ corpus (hand-written witnesses)
 
